@@ -33,6 +33,7 @@ func TestC06(t *testing.T) {
 			"oracle after EVERY request, read from the raw collections of the fake MongoDB: per datatype the stored operations have sseq 1..n without gap or repeat and _id duid:sseq, n equals the recorded end of the log, the stored set equals exactly the operations that were part of a request answered without error (each once), "+
 			"per client the operations are stored in issue order without gap, every recorded client checkpoint is <= what is stored; the response checkpoint obeys the same bounds; "+
 			"non-trivial = >=1 re-push AND >=2 clients pushed on one key AND >=1 empty push; distinct = hash of the action sequence")
+	col.Assume(deploymentNote)
 	checkProp(t, "C06", col, func(c *caseCtx) {
 		rt := c.rt
 		nk := rapid.IntRange(1, 2).Draw(rt, "keys")
@@ -41,14 +42,16 @@ func TestC06(t *testing.T) {
 			kinds = append(kinds, kindFromDraw(rt))
 		}
 		idseed := rapid.Uint64Range(1, 1<<40).Draw(rt, "idseed")
+		dep := drawDeployment(rt)
 		w, err := newL1World(idseed, kinds)
 		if err != nil {
 			c.failf("HARNESS-ERROR: cannot start the environment: %v", err)
 		}
 		defer w.close()
+		w.labels[dep] = true
 		w.waitBG = rapid.Bool().Draw(rt, "wait_background")
 		w.noConverge = true
-		c.j.Header = map[string]interface{}{"kinds": kinds, "id_seed": idseed, "wait_background": w.waitBG}
+		c.j.Header = map[string]interface{}{"kinds": kinds, "id_seed": idseed, "wait_background": w.waitBG, "deployment": dep}
 		n := rapid.IntRange(3, envInt("VERIF_L1_STEPS", 40)).Draw(rt, "steps")
 		var canon strings.Builder
 		rePushes, emptyPushes := 0, 0
@@ -158,8 +161,8 @@ func TestC06(t *testing.T) {
 		if err := w.checkLogInvariants(); err != nil {
 			c.failf("after the final syncs: %v", err)
 		}
-		if u := w.env.Mongo.UnknownCommands(); len(u) > 0 {
-			c.failf("HARNESS-ERROR: the fake MongoDB received commands it does not implement: %v", u)
+		if err := w.infraProblem(); err != nil {
+			c.failf("%v", err)
 		}
 		multi := false
 		for _, ops := range w.accepted {
